@@ -864,6 +864,7 @@ impl DcpsDomainParticipant {
                             data_writer.transport_writer.delete_matched_reader(
                                 discovered_reader_data.reader_proxy.remote_reader_guid,
                             );
+                            data_writer.notify_if_all_changes_acknowledged();
                             data_writer
                                 .status_condition
                                 .add_communication_state(StatusKind::PublicationMatched);
@@ -1200,6 +1201,7 @@ impl DcpsDomainParticipant {
                                         data_writer.transport_writer.delete_matched_reader(
                                             discovered_reader_data.reader_proxy.remote_reader_guid,
                                         );
+                                        data_writer.notify_if_all_changes_acknowledged();
                                         data_writer.status_condition.add_communication_state(
                                             StatusKind::PublicationMatched,
                                         );
@@ -1366,6 +1368,7 @@ impl DcpsDomainParticipant {
             data_writer
                 .transport_writer
                 .delete_matched_reader(Guid::from(<[u8; 16]>::from(subscription_handle)));
+            data_writer.notify_if_all_changes_acknowledged();
 
             data_writer
                 .status_condition
@@ -2734,6 +2737,7 @@ impl DcpsDomainParticipant {
                         .writer
                         .transport_writer
                         .delete_matched_reader(key.into());
+                    data_writer.notify_if_all_changes_acknowledged();
                     // Keep the matched list and the publication matched status in step
                     data_writer.remove_matched_subscription(&InstanceHandle::new(key));
                     data_writer
